@@ -188,3 +188,55 @@ def form_agree_tables(ctx):
                        'series and for the same state as a row of a Trajectory table'
                        % (mname, wa))
     ctx.floor('FORM-AGREE', n, 6, 'table/series method pairs')
+
+
+def util_prod(ctx):
+    """util.mm_prod / mv_prod / mm_prod_symmetric against their documented meaning, for single
+    and stacked operands and every flag combination (the 2-D and the 3-D transposition arms are
+    different code)."""
+    ctx.rule('UTIL-PROD', 'mm_prod(a, b, at, bt) == a^(T) @ b^(T), mv_prod(a, b, at) == a^(T) @ b, '
+             'mm_prod_symmetric(a, b) == a @ b @ a^T per sample, for single and stacked operands')
+    repo = ctx.repo
+    A = Alg()
+    n = 0
+
+    def M(name, stacked, shape=(3, 3)):
+        return SArray(shape, {i: A.sym('%s%s' % (name, ''.join(map(str, i))))
+                              for i in SArray(shape, {}).indices()}, None, stacked)
+    for fq, nargs in (('util.mm_prod', 2), ('util.mv_prod', 2), ('util.mm_prod_symmetric', 2)):
+        f = repo.function(fq)
+        ctx.touch(f)
+        flags = {'util.mm_prod': [(x, y) for x in (False, True) for y in (False, True)],
+                 'util.mv_prod': [(x,) for x in (False, True)],
+                 'util.mm_prod_symmetric': [()]}[fq]
+        for sa in (False, True):
+            for sb in (False, True):
+                for fl in flags:
+                    ev = SymEval(repo, A)
+                    ev.stacked = sa or sb
+                    a = M('a', sa)
+                    b = M('b', sb) if fq != 'util.mv_prod' else M('b', sb, (3,))
+                    try:
+                        got = ev.call_function(f, [a, b] + list(fl))
+                    except Unsupported as e:
+                        raise AnalysisError('%s not analysable (stacked=%s/%s, flags=%s): %s'
+                                            % (fq, sa, sb, fl, e))
+                    a0, b0 = M('a', False), (M('b', False) if fq != 'util.mv_prod'
+                                             else M('b', False, (3,)))
+                    if fq == 'util.mm_prod':
+                        want = ev.matmul(ev.transpose(a0) if fl[0] else a0,
+                                         ev.transpose(b0) if fl[1] else b0)
+                    elif fq == 'util.mv_prod':
+                        want = ev.matmul(ev.transpose(a0) if fl[0] else a0, b0)
+                    else:
+                        want = ev.matmul(ev.matmul(a0, b0), ev.transpose(a0))
+                    ok = isinstance(got, SArray) and got.shape == want.shape and \
+                        all(A.eq(got.get(i), want.get(i)) for i in want.indices())
+                    n += 1
+                    ctx.ob('UTIL-PROD', ok, None, '%s(a %s, b %s, flags %s)'
+                           % (f.name, 'stacked' if sa else 'single', 'stacked' if sb else 'single',
+                              fl), f=f, key='%s-%s-%s-%s' % (f.name, sa, sb, fl),
+                           why='%s does not compute the documented product for a %s, b %s, '
+                               'transposition flags %s' % (f.name, 'stacked' if sa else 'single',
+                                                           'stacked' if sb else 'single', fl))
+    ctx.floor('UTIL-PROD', n, 20, 'operand-form / flag combinations')
